@@ -503,5 +503,78 @@ class ExcClasses(Op):
             return "exception classes " + out
 
 
+class TruncAccept(Op):
+    """Truncated points (allow_truncated parsers and the constructor with truncated=True): whatever is accepted
+    must have every specified field inside its basic legal range - "no entry point admits an impossible
+    date-time" holds for the year-less forms too."""
+    prop = PROP
+    name = "truncaccept"
+    model = False
+
+    RANGES = {"month_of_year": (1, 12), "week_of_year": (1, 53), "day_of_year": (1, 366), "day_of_month": (1, 31),
+              "day_of_week": (1, 7), "hour_of_day": (0, 24), "minute_of_hour": (0, 60), "second_of_minute": (0, 60),
+              "year_of_century": (0, 99), "year_of_decade": (0, 9)}
+
+    def gen(self, rng, tier, boost):
+        import tprops
+        n = (2500 if tier == "quick" else 30000) * boost
+        for _ in range(n):
+            mode, cfg, text = tprops.gen_case(rng)
+            if cfg[2]:
+                yield ("text", mode, cfg, text)
+        fields = list(self.RANGES)
+        for _ in range(n // 3):
+            m = gens.mode(rng)
+            k = rng.choice([1, 1, 2, 2, 3])
+            names = rng.sample(["month_of_year", "day_of_month", "hour_of_day", "minute_of_hour", "second_of_minute",
+                                "day_of_year", "week_of_year", "day_of_week"], k)
+            vals = []
+            for nm in names:
+                lo, hi = self.RANGES[nm]
+                vals.append((nm, rng.choice([lo - 1, lo, hi - 1, hi, hi + 1, rng.randint(lo, hi)])))
+            yield ("ctor", m, tuple(sorted(vals)), "")
+
+    def line(self, a):
+        return "truncaccept %s %s %r %r" % (a[0], a[1], a[2], a[3])
+
+    def impl(self, a):
+        import tprops
+        from metomi.isodatetime.data import TimePoint
+        kind, m = a[0], a[1]
+        set_mode(m)
+        if kind == "text":
+            return tprops.impl(m, a[2], a[3])
+        try:
+            p = TimePoint(truncated=True, **dict(a[2]))
+        except ValueError:
+            return "err"
+        props = p.get_truncated_properties()
+        return "D " + ";".join("%s=%s" % (k, tprops.unit(v)) for k, v in props.items())
+
+    def oracle(self, a, out):
+        if out.startswith(("EXC", "Timeout")):
+            return "%s raised %s" % (self.line(a), out)
+        if not out.startswith("D "):
+            return None
+        for item in out[2:].split(";"):
+            if not item:
+                continue
+            name, _, val = item.partition("=")
+            whole, _, frac = val.partition("+")
+            lo, hi = self.RANGES.get(name, (None, None))
+            if lo is None:
+                continue
+            v = int(whole)
+            has_frac = bool(frac.strip("0"))
+            upper_open = name in ("minute_of_hour", "second_of_minute")
+            bad = v < lo or v > hi or (upper_open and v >= hi) or (name == "hour_of_day" and v == 24 and has_frac)
+            if bad:
+                return "%s: accepted with %s = %s, outside its legal range" % (self.line(a), name, val)
+        return None
+
+    def label(self, a):
+        return "truncaccept/%s/%s" % (a[0], a[1])
+
+
 def ops():
-    return [MkTP(), TextAccept(), DecAccept(), Garbage(), ExcClasses()]
+    return [MkTP(), TextAccept(), DecAccept(), TruncAccept(), Garbage(), ExcClasses()]
